@@ -1,6 +1,7 @@
 import RbV.Model.Fasta
 import RbV.Model.Fastq
 import RbV.Lemmas.Fastx
+import RbV.Lemmas.FastqPrefix
 /-!
 # C11 — FASTA/FASTQ round trip is lossless and layout independent; truncated FASTQ is prefix safe
 
@@ -71,6 +72,51 @@ theorem valid_check (r : FqRec) (v : ValidFq r) (hascii : ∀ b ∈ r.seq ++ r.q
   | nil => exact absurd hi hid
   | cons b i => simp [FqRec.check, hi, h1, h2, h3]
 
+/-- **Truncated FASTQ stream** ([B]): the reader's result on the first `c` bytes of the writer's output is the first
+`k` original records, followed by nothing, or by one `IncompleteRecord` error, or by the `k`-th original record
+itself (only its final line feed is cut off), or by one record that fails `check()` (its quality string is shorter
+than its sequence).  Hence every record obtained from a cut stream that passes `check()` is an original record, in
+the original order. -/
+theorem fastq_prefix_safe (recs : List FqRec) (hv : ∀ r ∈ recs, ValidFq r) (c : Nat) :
+    ∃ k tail, parseFastq ((writeFastq recs).take c) = (recs.take k).map FqItem.ok ++ tail ∧
+      (tail = [] ∨ tail = [.incomplete] ∨ (∃ r, recs[k]? = some r ∧ tail = [.ok r]) ∨
+       ∃ r', tail = [.ok r'] ∧ r'.check = false) := by
+  induction recs generalizing c with
+  | nil => exact ⟨0, [], by simp [writeFastq, parseFastq, splitLines, fqRecords], Or.inl rfl⟩
+  | cons r rs ih =>
+    have v := hv r (by simp)
+    have hw : writeFastq (r :: rs) = writeFastqRec r ++ writeFastq rs := by simp [writeFastq]
+    rw [hw]
+    rcases Nat.lt_or_ge c (writeFastqRec r).length with hlt | hge
+    · -- the cut is inside the first record
+      rw [List.take_append_of_le_length (Nat.le_of_lt hlt)]
+      rcases parseFastq_cut_rec r v c with h | h | h | ⟨r', h, hc⟩
+      · exact ⟨0, [], by simp [h], Or.inl rfl⟩
+      · exact ⟨0, [.incomplete], by simp [h], Or.inr (Or.inl rfl)⟩
+      · exact ⟨0, [.ok r], by simp [h], Or.inr (Or.inr (Or.inl ⟨r, by simp, rfl⟩))⟩
+      · exact ⟨0, [.ok r'], by simp [h], Or.inr (Or.inr (Or.inr ⟨r', rfl, hc⟩))⟩
+    · -- the first record is complete
+      rw [List.take_append, List.take_of_length_le hge, parseFastq_rec_append r v]
+      obtain ⟨k, tail, hk, ht⟩ := ih (fun x hx => hv x (by simp [hx])) (c - (writeFastqRec r).length)
+      refine ⟨k + 1, tail, by simp [hk], ?_⟩
+      simpa using ht
+
+/-- … in particular: the records of a cut stream that pass `check()` are among the original ones. -/
+theorem fastq_prefix_checked_mem (recs : List FqRec) (hv : ∀ r ∈ recs, ValidFq r) (c : Nat) (r : FqRec)
+    (hr : FqItem.ok r ∈ parseFastq ((writeFastq recs).take c)) (hc : r.check = true) : r ∈ recs := by
+  obtain ⟨k, tail, hk, ht⟩ := fastq_prefix_safe recs hv c
+  rw [hk, List.mem_append] at hr
+  rcases hr with hr | hr
+  · obtain ⟨x, hx, hxe⟩ := List.mem_map.mp hr
+    cases hxe
+    exact List.mem_of_mem_take hx
+  · rcases ht with rfl | rfl | ⟨x, hx, rfl⟩ | ⟨x, rfl, hx⟩
+    · cases hr
+    · simp at hr
+    · simp at hr; subst hr
+      exact List.mem_of_getElem? hx
+    · simp at hr; subst hr; rw [hx] at hc; cases hc
+
 /-! ## Non-vacuity -/
 
 private def exFa : List FaRec :=
@@ -89,5 +135,9 @@ private def exFq : List FqRec :=
 private theorem exFq_valid : ∀ r ∈ exFq, ValidFq r := by decide
 
 example : parseFastq (writeFastq exFq) = exFq.map FqItem.ok := fastq_roundtrip exFq exFq_valid
+
+/-- a cut in the middle of the second record: whatever passes `check()` is an original record -/
+example (r : FqRec) (hr : FqItem.ok r ∈ parseFastq ((writeFastq exFq).take 14)) (hc : r.check = true) : r ∈ exFq :=
+  fastq_prefix_checked_mem exFq exFq_valid 14 r hr hc
 
 end RbV.Thm.C11
